@@ -869,6 +869,7 @@ func plan() []group {
 	base = append(base, planAlias()...)
 	base = append(base, planChain()...)
 	base = append(base, planLater()...)
+	base = append(base, planLarge()...)
 	var gs []group
 	for rep := 0; rep < reps; rep++ {
 		for _, g := range base {
@@ -882,7 +883,7 @@ func plan() []group {
 func TestCheck(t *testing.T) {
 	rec = mon.Open("C17")
 	defer rec.Close()
-	rec.Note("rule", "A case is one call into kit: (function, algorithm, success/failure path, argument lengths, per-argument layout off/spare, repetition). Every []byte argument (and every raw key slice given to jwk.FromRaw, which jwx retains by reference) is arr[off:off+len:off+len+spare] of its own canary-filled array, off in {0,1,16}, spare in {0,1,15,16,17,64}; after the call the whole array (before the slice, slice, spare capacity, 8 guard bytes) is compared with its snapshot; only dst[len:cap] of the explicit aescbcaead Seal/Open dst may differ. Returned slices are located against every argument array. Repetition 0 is a systematic sweep: all algorithms of SupportedSymmetric/Asymmetric/SignatureAlgorithms x lengths 0,1,15,16,17,31,32,33,48 x 18 rounds in which every argument position cycles through all 18 layouts x every success and failure path (wrong/short/long/nil tag, wrong nonce size, wrong key size/bytes/type, tampered or truncated ciphertext, wrong associated data, crafted bad padding, unsupported algorithm, too-long RSA plaintext, wrong digest size, ...). crypto.ParseKey: raw binary keys, base64 / base64url / hex key text with and without padding, JWK, JWK set, PEM of every block type the standard library marshals (PKCS#1, PKCS#8, PKIX, SEC1, X25519, CERTIFICATE, with headers), each with leading / trailing / interior blanks, tabs, LF and CRLF, folded and indented lines, truncated, doubled, under every content type and auto-detection branch, each parsed twice; seeded repetitions sprinkle 1-3 more blanks / tabs / line breaks at drawn positions; the parsed key is then serialized and used while the caller's buffer stays watched. The exported functions taking []byte are listed in the note api_exported_functions_taking_bytes (parsed from the source under test at start-up and required to equal the harness's covered list). Deferred writes (deferred.* counters): every caller-owned array of a case (one plan entry = 18 rounds of calls) stays referenced with its after-call snapshot; after every 12 cases (and at the end) nothing kit returned is reachable, two rounds of runtime.GC + a sentinel finalizer and a sentinel cleanup are awaited (wall-clock limit 60 s -> inconclusive), then all arrays are compared again (signature fn/arg/written-after-return) and up to 48 earlier successful decrypts are repeated with the same key object and buffers. Retained by a later call (later.* counters): for every ordered pair (A, B) of the operation list (every symmetric algorithm x encrypt/decrypt through both entry points, PadPKCS7, UnpadPKCS7, aeskw Wrap/Unwrap, aescbcaead Seal/Open, ParseKey, EncryptPublicKey; A == B and both orders included) A is called with buffers of capacity >= 4*len+64, then with garbage collection disabled (so no sync.Pool is emptied) three smaller B calls and one call of a further operation run, all with content < 0x80 (never equal to a canary); after each of them A's buffers are compared with their state right after A returned (signature A/arg/written-by-a-later-call[B]). Chained calls (chain.* counters): the inputs of a call are the live slices earlier kit calls returned, snapshotted over their whole capacity at call time - 2 and 3 layer decrypt-of-decrypt for every AEAD family and mixes (outer plaintext split into inner ciphertext and tag), unwrapped content key (AEAD, key wrap, CBC, RSA-OAEP) as the key of the payload decrypt (payload smaller and larger than the key message, decrypted twice), decrypted value as associated data / nonce of a smaller or larger second message, encrypt->encrypt->decrypt->decrypt entirely on returned slices, decrypt->digest->sign->verify, aescbcaead Open->Open. Aliasing layouts (alias.* counters): for every function with two or more caller-owned byte buffers the arguments are additionally cut out of ONE array - ciphertext directly followed by the tag (ct=msg[:n] whose spare capacity is the tag, and ct=msg[:n:n]), nonce||ct||tag, ad||nonce||ct||tag, ad||ct||tag, tag||ct, key||ct||tag, nonce||pt, ad||nonce||pt, key||pt, pt||key, digest||signature, key||digest||signature, the slices a previous kit Encrypt/Seal/Sign call returned handed straight back (their whole capacity is snapshotted), and the same slice given as two arguments (associatedData==nonce, plaintext==label, digest==signature); each clean call is repeated once with the identical arguments, the memory judged again and the two results compared; results are compared with the expected plaintext/ciphertext. Repetitions >= 1 draw layouts, contents and a third of the lengths (0..80) from the seeded stream. distinct = distinct (function, algorithm, path, lengths, layouts, repetition) tuples; non-trivial = at least one watched argument has spare capacity > 0.")
+	rec.Note("rule", "A case is one call into kit: (function, algorithm, success/failure path, argument lengths, per-argument layout off/spare, repetition). Every []byte argument (and every raw key slice given to jwk.FromRaw, which jwx retains by reference) is arr[off:off+len:off+len+spare] of its own canary-filled array, off in {0,1,16}, spare in {0,1,15,16,17,64}; after the call the whole array (before the slice, slice, spare capacity, 8 guard bytes) is compared with its snapshot; only dst[len:cap] of the explicit aescbcaead Seal/Open dst may differ. Returned slices are located against every argument array. Repetition 0 is a systematic sweep: all algorithms of SupportedSymmetric/Asymmetric/SignatureAlgorithms x lengths 0,1,15,16,17,31,32,33,48 x 18 rounds in which every argument position cycles through all 18 layouts x every success and failure path (wrong/short/long/nil tag, wrong nonce size, wrong key size/bytes/type, tampered or truncated ciphertext, wrong associated data, crafted bad padding, unsupported algorithm, too-long RSA plaintext, wrong digest size, ...). crypto.ParseKey: raw binary keys, base64 / base64url / hex key text with and without padding, JWK, JWK set, PEM of every block type the standard library marshals (PKCS#1, PKCS#8, PKIX, SEC1, X25519, CERTIFICATE, with headers), each with leading / trailing / interior blanks, tabs, LF and CRLF, folded and indented lines, truncated, doubled, under every content type and auto-detection branch, each parsed twice; seeded repetitions sprinkle 1-3 more blanks / tabs / line breaks at drawn positions; the parsed key is then serialized and used while the caller's buffer stays watched. The exported functions taking []byte are listed in the note api_exported_functions_taking_bytes (parsed from the source under test at start-up and required to equal the harness's covered list). Deferred writes (deferred.* counters): every caller-owned array of a case (one plan entry = 18 rounds of calls) stays referenced with its after-call snapshot; after every 12 cases (and at the end) nothing kit returned is reachable, two rounds of runtime.GC + a sentinel finalizer and a sentinel cleanup are awaited (wall-clock limit 60 s -> inconclusive), then all arrays are compared again (signature fn/arg/written-after-return) and up to 48 earlier successful decrypts are repeated with the same key object and buffers. Retained by a later call (later.* counters): for every ordered pair (A, B) of the operation list (every symmetric algorithm x encrypt/decrypt through both entry points, PadPKCS7, UnpadPKCS7, aeskw Wrap/Unwrap, aescbcaead Seal/Open, ParseKey, EncryptPublicKey; A == B and both orders included) A is called with buffers of capacity >= 4*len+64, then with garbage collection disabled (so no sync.Pool is emptied) three smaller B calls and one call of a further operation run, all with content < 0x80 (never equal to a canary); after each of them A's buffers are compared with their state right after A returned (signature A/arg/written-by-a-later-call[B]). Large messages (large.* counters): every symmetric algorithm through both entry points (encrypt, decrypt, one failing decrypt), PadPKCS7/UnpadPKCS7, the four aescbcaead variants (Seal, Open, failing Open), aeskw Wrap/Unwrap (up to 131088 bytes), ParseKey (long key text, folded text, raw bytes, unterminated JSON) and EdDSA sign/verify at lengths 4080, 4096, 4112, 32752, 32768, 32784, 65520, 65536, 65552, 131088, 200000, 1048577 (seeded repetitions move each by -32..+32), layouts from the same table, results compared with the reference; RSA is left out. Chained calls (chain.* counters): the inputs of a call are the live slices earlier kit calls returned, snapshotted over their whole capacity at call time - 2 and 3 layer decrypt-of-decrypt for every AEAD family and mixes (outer plaintext split into inner ciphertext and tag), unwrapped content key (AEAD, key wrap, CBC, RSA-OAEP) as the key of the payload decrypt (payload smaller and larger than the key message, decrypted twice), decrypted value as associated data / nonce of a smaller or larger second message, encrypt->encrypt->decrypt->decrypt entirely on returned slices, decrypt->digest->sign->verify, aescbcaead Open->Open. Aliasing layouts (alias.* counters): for every function with two or more caller-owned byte buffers the arguments are additionally cut out of ONE array - ciphertext directly followed by the tag (ct=msg[:n] whose spare capacity is the tag, and ct=msg[:n:n]), nonce||ct||tag, ad||nonce||ct||tag, ad||ct||tag, tag||ct, key||ct||tag, nonce||pt, ad||nonce||pt, key||pt, pt||key, digest||signature, key||digest||signature, the slices a previous kit Encrypt/Seal/Sign call returned handed straight back (their whole capacity is snapshotted), and the same slice given as two arguments (associatedData==nonce, plaintext==label, digest==signature); each clean call is repeated once with the identical arguments, the memory judged again and the two results compared; results are compared with the expected plaintext/ciphertext. Repetitions >= 1 draw layouts, contents and a third of the lengths (0..80) from the seeded stream. distinct = distinct (function, algorithm, path, lengths, layouts, repetition) tuples; non-trivial = at least one watched argument has spare capacity > 0.")
 	rec.Note("require", []string{
 		"selftest.passed",
 		"fn.padding.PadPKCS7", "fn.padding.UnpadPKCS7", "fn.aeskw.Wrap", "fn.aeskw.Unwrap",
@@ -921,6 +922,10 @@ func TestCheck(t *testing.T) {
 		// retained by a later call: every ordered pair (A, B) of the operation list, no GC in between
 		"later.pairs", "later.later_calls", "later.rechecks", "later.pair.enc:CBC-NOPAD>enc:CBC", "later.pair.same_operation", "later.decrypt_roundtrip", "deferred.kind.later",
 		"later.a.enc:CBC", "later.b.enc:CBC", "later.a.dec:CBC", "later.b.dec:CBC", "later.a.enc:CBC-NOPAD", "later.b.enc:CBC-NOPAD", "later.a.dec:CBC-NOPAD", "later.b.dec:CBC-NOPAD", "later.a.enc:GCM", "later.b.enc:GCM", "later.a.dec:GCM", "later.b.dec:GCM", "later.a.enc:CBC-HMAC", "later.b.enc:CBC-HMAC", "later.a.dec:CBC-HMAC", "later.b.dec:CBC-HMAC", "later.a.enc:KW", "later.b.enc:KW", "later.a.dec:KW", "later.b.dec:KW", "later.a.enc:C20P", "later.b.enc:C20P", "later.a.dec:C20P", "later.b.dec:C20P", "later.a.enc:XC20P", "later.b.enc:XC20P", "later.a.dec:XC20P", "later.b.dec:XC20P", "later.a.pad", "later.b.pad", "later.a.unpad", "later.b.unpad", "later.a.kw-wrap", "later.b.kw-wrap", "later.a.kw-unwrap", "later.b.kw-unwrap", "later.a.aead-seal", "later.b.aead-seal", "later.a.aead-open", "later.b.aead-open", "later.a.parsekey", "later.b.parsekey", "later.a.rsa-encrypt", "later.b.rsa-encrypt",
+		// large messages around 4 KiB / 32 KiB / 64 KiB / 128 KiB / 200 000 / 1 MiB+1
+		"large.calls", "large.output_correct", "deferred.kind.large",
+		"large.len.4080", "large.len.4096", "large.len.4112", "large.len.32752", "large.len.32768", "large.len.32784", "large.len.65520", "large.len.65536", "large.len.65552", "large.len.131088", "large.len.200000", "large.len.1048577",
+		"large.fn.crypto.Encrypt", "large.fn.crypto.Decrypt", "large.fn.crypto.EncryptSymmetric", "large.fn.crypto.DecryptSymmetric", "large.fn.padding.PadPKCS7", "large.fn.padding.UnpadPKCS7", "large.fn.aescbcaead.Seal", "large.fn.aescbcaead.Open", "large.fn.aeskw.Wrap", "large.fn.aeskw.Unwrap", "large.fn.crypto.ParseKey", "large.fn.crypto.SignPrivateKey", "large.fn.crypto.VerifyPublicKey",
 		// chained calls: inputs are slices returned by earlier kit calls
 		"chain.inputs_from_returned_slices", "chain.output_correct",
 		"chain.layered-decrypt.completed", "chain.unwrap->key.completed", "chain.decrypt->ad.completed", "chain.decrypt->nonce.completed",
@@ -969,8 +974,13 @@ func TestCheck(t *testing.T) {
 				runChain(gc, g)
 			case "later":
 				runLater(gc, g)
+			case "large":
+				runLarge(gc, g)
 			}
 			rec.Progress()
+		}
+		if g.kind == "large" {
+			pending = deferredEvery // megabyte buffers are not kept across cases
 		}
 		if pending++; pending >= deferredEvery {
 			deferredStep()
